@@ -90,6 +90,25 @@ class Fail(Exception):
     pass
 
 
+STALE = [0]
+_E = ctypes.CDLL(lib_path, use_errno=True)          # same library image; this handle lets errno be set right before the call
+_E.Crystal_ReadFile.restype = c_int
+_E.Crystal_ReadFile.argtypes = [ctypes.c_char_p, c_void_p, POINTER(c_void_p)]
+
+
+def read_file(path, arr):
+    """Crystal_ReadFile with the thread's errno preset to the stale value; -> (rv, err)"""
+    slot = c_void_p(None)
+    ctypes.set_errno(STALE[0])
+    rv = _E.Crystal_ReadFile(path, arr, byref(slot))
+    err = None
+    if slot.value:
+        e = cast(slot, POINTER(xrl.XrlError)).contents
+        err = (e.code, e.message)
+        L._free(slot)
+    return rv, err
+
+
 def log(step):
     STEPLOG.write(step + "\n")
     STEPLOG.flush()
@@ -115,6 +134,7 @@ class Machine(RuleBasedStateMachine):
     @initialize(cap=hs.integers(0, 12))
     def init(self, cap):
         log("--- new history")
+        STALE[0] = 0
         self.step("ArrayInit(%d)" % cap)
         p, err = L.call("Crystal_ArrayInit", cap)
         if not p or err is not None:
@@ -207,7 +227,7 @@ class Machine(RuleBasedStateMachine):
         full = len(self.model) + len(crystals) > self.cap
         self.step("ReadFile(wellformed, %r)" % names)
         path = self.write_file(file_text(crystals))
-        rv, err = L.call("Crystal_ReadFile", path.encode(), self.arr)
+        rv, err = read_file(path.encode(), self.arr)
         os.unlink(path)
         if rv != 1 or err is not None:
             self.fail("readfile:wellformed-rejected", "1", dict(rv=rv, error=err))
@@ -226,7 +246,7 @@ class Machine(RuleBasedStateMachine):
         w = where % len(crystals)
         self.step("ReadFile(corrupted:%s at %d of %r)" % (kind, w, names))
         path = self.write_file(file_text(crystals, kind, w))
-        rv, err = L.call("Crystal_ReadFile", path.encode(), self.arr)
+        rv, err = read_file(path.encode(), self.arr)
         os.unlink(path)
         if rv != 0 or err is None:
             self.fail("readfile:corrupted-accepted:" + kind, "0 and error", dict(rv=rv, error=err))
@@ -243,7 +263,7 @@ class Machine(RuleBasedStateMachine):
             crystals.reverse()
         self.step("ReadFile(duplicate of %r with new %r)" % (dup, newname))
         path = self.write_file(file_text(crystals))
-        rv, err = L.call("Crystal_ReadFile", path.encode(), self.arr)
+        rv, err = read_file(path.encode(), self.arr)
         os.unlink(path)
         if rv != 0 or err is None:
             self.fail("readfile:duplicate-accepted", "0 and error", dict(rv=rv, error=err))
@@ -261,7 +281,7 @@ class Machine(RuleBasedStateMachine):
         crystals = [(n, specs[i][0], specs[i][1]) for i, n in enumerate(seq)]
         self.step("ReadFile(same name twice in one file: %r)" % seq)
         path = self.write_file(file_text(crystals))
-        rv, err = L.call("Crystal_ReadFile", path.encode(), self.arr)
+        rv, err = read_file(path.encode(), self.arr)
         os.unlink(path)
         if rv != 0 or err is None:
             self.fail("readfile:infile-duplicate-accepted", "0 and error", dict(rv=rv, error=err))
@@ -271,18 +291,25 @@ class Machine(RuleBasedStateMachine):
     def readfile_no_crystals(self, text):
         self.step("ReadFile(no crystals: %r)" % text)
         path = self.write_file(text)
-        rv, err = L.call("Crystal_ReadFile", path.encode(), self.arr)
+        rv, err = read_file(path.encode(), self.arr)
         os.unlink(path)
         if (rv == 0) != (err is not None):
             self.fail("readfile:error-iff-zero", "rv==0 <=> error", dict(rv=rv, error=err))
 
+    @rule(kind=hs.sampled_from([34, 33, 2, 0]))
+    def stale_errno(self, kind):
+        """the caller's thread may carry any errno from unrelated work (ERANGE, EDOM, ENOENT, or none); it is put in place right before every later
+        Crystal_ReadFile call (ctypes use_errno), because nothing the library does may depend on it"""
+        self.step("StaleErrno(%d)" % kind)
+        STALE[0] = kind
+
     @rule()
     def readfile_missing(self):
         self.step("ReadFile(missing path)")
-        rv, err = L.call("Crystal_ReadFile", os.path.join(TMPDIR, "does-not-exist.dat").encode(), self.arr)
+        rv, err = read_file(os.path.join(TMPDIR, "does-not-exist.dat").encode(), self.arr)
         if rv != 0 or err is None:
             self.fail("readfile:missing-accepted", "0 and error", dict(rv=rv, error=err))
-        rv, err = L.call("Crystal_ReadFile", None, self.arr)
+        rv, err = read_file(None, self.arr)
         if rv != 0 or err is None:
             self.fail("readfile:null-accepted", "0 and error", dict(rv=rv, error=err))
         self.failed_ops += 1
